@@ -131,6 +131,16 @@ Conflate(j) == CASE j.k = "bool" -> IF j.v THEN j ELSE Null
                  [] j.k = "obj" -> IF j.v = <<>> THEN Null ELSE O([i \in 1..Len(j.v) |-> <<j.v[i][1], Conflate(j.v[i][2])>>])
                  [] OTHER -> j
 
+\* SimpleObject then Simplify: named deviations of the open findings (C18-F1: an empty string-keyed map comes back as an
+\* empty slice; C18-F3: false comes back as nil).  A rejected Go-bridge round trip is a known finding only if it is exactly
+\* the document altered by these.
+RECURSIVE BridgeDev(_, _)
+BridgeDev(j, dev) == CASE j.k = "bool" -> IF ~j.v /\ "false" \in dev THEN Null ELSE j
+                       [] j.k = "arr" -> A([i \in 1..Len(j.v) |-> BridgeDev(j.v[i], dev)])
+                       [] j.k = "obj" -> IF j.v = <<>> /\ "empty-map" \in dev THEN A(<<>>)
+                                         ELSE O([i \in 1..Len(j.v) |-> <<j.v[i][1], BridgeDev(j.v[i][2], dev)>>])
+                       [] OTHER -> j
+
 (***************************************************************************)
 (* Generator: documents and histories                                      *)
 (***************************************************************************)
